@@ -206,6 +206,58 @@ pub fn run(cx: &mut Ctx) {
         }
     }
 
+    // ------------------------------------------------- multi-KiB inputs (many blocks)
+    let longs: &[usize] = match cx.tier {
+        crate::ctx::Tier::Tiny => &[4096],
+        crate::ctx::Tier::Quick => &[4095, 4096, 4097, 65535, 65536, 65537],
+        crate::ctx::Tier::Thorough => &[4095, 4096, 4097, 65535, 65536, 65537, 1 << 20, (1 << 20) + 1, (4 << 20) + 127],
+    };
+    for &len in longs {
+        for class in CONTENTS {
+            idx += 1;
+            if !cx.mine(idx) {
+                continue;
+            }
+            let mut rng = cx.rng.fork(idx);
+            let input = content(&mut rng, class, len);
+            let key64 = rng.bytes(64);
+            let key32: [u8; 32] = key64[..32].try_into().unwrap();
+            cx.key(&format!("long {} {}", len, class));
+            cx.cover("long_input_len", &format!("{}", len));
+            let c = || json!({"family":"long_input","len":len,"class":class,"key":hx(&key64)});
+            for (o, k) in [(32usize, 0usize), (64, 64)] {
+                let key = if k == 0 { None } else { Some(&key64[..k]) };
+                let mut out = vec![0u8; o];
+                if let Some(Ok(())) = call(cx, "C07|crypto_generichash", "crypto_generichash", c, || crypto_generichash(&mut out, &input, key)) {
+                    expect_eq(cx, "C07|crypto_generichash|mismatch_vs_libsodium", &out, &na::generichash(o, &input, key).unwrap(), c);
+                    if len <= 65537 {
+                        cx.io("blake2b", json!({"in":hx(&input),"key":key.map(hx),"outlen":o,"out":hx(&out)}));
+                    }
+                }
+            }
+            let mut d = [0u8; 64];
+            if call(cx, "C07|crypto_hash_sha512", "crypto_hash_sha512", c, || crypto_hash_sha512(&mut d, &input)).is_some() {
+                expect_eq(cx, "C07|crypto_hash_sha512|mismatch_vs_libsodium", &d, &na::sha512(&input), c);
+            }
+            let mut a = [0u8; 32];
+            if call(cx, "C07|crypto_auth", "crypto_auth", c, || crypto_auth(&mut a, &input, &key32)).is_some() {
+                expect_eq(cx, "C07|crypto_auth|mismatch_vs_libsodium", &a, &na::auth(&input, &key32), c);
+            }
+            let mut t = [0u8; 16];
+            if call(cx, "C07|crypto_onetimeauth", "crypto_onetimeauth", c, || crypto_onetimeauth(&mut t, &input, &key32)).is_some() {
+                expect_eq(cx, "C07|crypto_onetimeauth|mismatch_vs_libsodium", &t, &na::onetimeauth(&input, &key32), c);
+                if len <= 65537 {
+                    cx.io("poly1305", json!({"in":hx(&input),"key":hx(&key32),"out":hx(&t),"family":"long"}));
+                }
+            }
+            let mut s8 = [0u8; 8];
+            let k16: [u8; 16] = key64[..16].try_into().unwrap();
+            if call(cx, "C07|crypto_shorthash", "crypto_shorthash", c, || crypto_shorthash(&mut s8, &input, &k16)).is_some() {
+                expect_eq(cx, "C07|crypto_shorthash|mismatch_vs_libsodium", &s8, &na::shorthash(&input, &k16), c);
+            }
+        }
+    }
+
     // ------------------------------------------------- every (digest, key) length pair
     for outlen in 16..=64usize {
         for keylen in std::iter::once(0usize).chain(16..=64) {
